@@ -911,10 +911,24 @@ def find_culprit(cuqi, plan, target):
     return None, None, fake, t
 
 
+_BUF_DEFECT = {}
+
+
+def _buffers_defect_present(cuqi):
+    key = getattr(cuqi, "__file__", "cuqi")
+    if key not in _BUF_DEFECT:
+        vals_, _, W_, _ = execute_with_snapshots(cuqi, WITNESS_BUF)
+        _BUF_DEFECT[key] = bool(twin_check(cuqi, WITNESS_BUF, vals_, W_))
+    return _BUF_DEFECT[key]
+
+
 def classify_failure(cuqi, plan, target):
     """signature = culprit call site + mechanism (which field of the victim's object graph was written)"""
-    if plan["graph"] == "buffers":
-        # dedicated graph of the finding: callables returning one reused array; a conditioned copy keeps the returned array by reference
+    if plan["graph"] == "buffers" and _buffers_defect_present(cuqi):
+        # dedicated graph of the finding: callables returning one reused array; a conditioned copy keeps the returned array by
+        # reference.  Only while that defect IS present on the tree under test (witness fails) are the graph's failures
+        # attributed to it wholesale; on the repaired tree (9d8ff9f) a failure in this graph is classified like any other
+        # (e.g. the open lazy-default-geometry finding also shows here: Gamma(shape_buf, 1.0) has no explicit geometry).
         return SIG_BUF, None
     c, keep, fake, t = find_culprit(cuqi, plan, target)
     if c is None:
